@@ -131,7 +131,8 @@ def build(spec, sign_alg=None, digest_alg=None):
 
 def post(sp, xml, outstanding=None, binding=BINDING_HTTP_POST, **kw):
     """run the SP's public entry point on the message; returns the AuthnResponse"""
-    b64 = base64.b64encode(xml.encode("utf-8")).decode("ascii") if binding == BINDING_HTTP_POST else xml
+    octets = xml if isinstance(xml, bytes) else xml.encode("utf-8")      # bytes: sent exactly as given (other encodings, stray octets)
+    b64 = base64.b64encode(octets).decode("ascii") if binding == BINDING_HTTP_POST else xml
     if outstanding is None:
         outstanding = {"req-1": "/came-from"}
     return sp.parse_authn_request_response(b64, binding, copy.copy(outstanding), **kw)
